@@ -602,6 +602,68 @@ Init ==
 Types  == {"raw", "c", "n"}
 XTypes == {"y", "p", "kv"}
 TTypes == {"c", "n"}
+---------------------------------------------------------------------------
+(* Arguments at the limits of size_t / long.  Huge stands for 2^64, SHuge   *)
+(* for 2^63 (TLC integers are 32 bit; the check writes such values as       *)
+(* "max-k", "smax-k", "smax+k" for the drivers).  No buffer can hold such   *)
+(* an offset or length, and sums that wrap around must not be taken for     *)
+(* small ones: every call with such an argument is refused and changes      *)
+(* nothing.                                                                 *)
+Huge  == 1000000
+SHuge == 500000
+Big(x) == x >= SHuge - 1000
+HOffs  == IF Prune THEN {Huge - 1, Huge - 2, Huge - 1 - MaxArg, SHuge} ELSE {Huge - 1}
+HLongs == IF Prune THEN {SHuge - 1, SHuge - 2} ELSE {SHuge - 1}
+HKeys  == {"pos", "off", "n", "len", "nblk", "esz", "hl", "cap"}
+HasHuge(arg) == \E k \in (DOMAIN arg) \cap HKeys : Big(arg[k])
+HugeCall(a, arg) == Refuse(a, arg, FALSE)
+BufExcl(h, needmut) == ~IsNull(h) /\ ~Shared(h) /\ (needmut => ~rec[h].imm)
+TypOf(h) == IF IsNull(h) THEN "raw" ELSE rec[h].typ
+
+\* C calls with a huge offset (x) or a huge length (hl; no data is handed over then)
+NextHugeC ==
+  \E h \in H, x \in HOffs, y \in HLongs, p \in {0, MaxArg}, n \in {0, 1, MaxArg} :
+     /\ Prune => h = 1
+     /\ \/ BufExcl(h, TRUE) /\ HugeCall("bufcut", [h |-> h, off |-> x, n |-> n])
+        \/ BufExcl(h, TRUE) /\ HugeCall("bufcut", [h |-> h, off |-> p, n |-> x])
+        \/ BufExcl(h, FALSE) /\ HugeCall("bufinsert", [h |-> h, pos |-> x, data |-> Fresh(n), hl |-> 0])
+        \/ BufExcl(h, FALSE) /\ n = 0 /\ HugeCall("bufinsert", [h |-> h, pos |-> p, data |-> <<>>, hl |-> x])
+        \/ BufExcl(h, TRUE) /\ HugeCall("bufset", [h |-> h, typ |-> TypOf(h), pos |-> x, data |-> Fresh(n), zero |-> 0, hl |-> 0])
+        \/ BufExcl(h, TRUE) /\ n = 0 /\ HugeCall("bufset", [h |-> h, typ |-> TypOf(h), pos |-> p, data |-> <<>>, zero |-> 1, hl |-> x])
+        \/ n = 0 /\ p = 0 /\ HugeCall("append", [h |-> h, data |-> <<>>, zero |-> 1, hl |-> x])
+        \/ HugeCall("insert", [h |-> h, pos |-> x, data |-> Fresh(n), hl |-> 0])
+        \/ n = 0 /\ HugeCall("insert", [h |-> h, pos |-> p, data |-> <<>>, hl |-> x])
+        \/ p = 0 /\ TypOf(h) # "n" /\ HugeCall("settyped", [h |-> h, typ |-> IF TypOf(h) = "raw" THEN "c" ELSE TypOf(h),
+                                                              data |-> Fresh(n), off |-> y, zero |-> 0, hl |-> 0])
+        \/ n = 0 /\ HugeCall("settyped", [h |-> h, typ |-> IF TypOf(h) = "raw" THEN "c" ELSE TypOf(h),
+                                           data |-> <<>>, off |-> p, zero |-> 1, hl |-> x])
+        \/ HugeCall("slice", [h |-> h, off |-> x, data |-> Zeros(n), fill |-> 0, hl |-> 0])
+        \/ n = 0 /\ HugeCall("slice", [h |-> h, off |-> p, data |-> <<>>, fill |-> 0, hl |-> x])
+        \/ n = 0 /\ p = 0 /\ \E t \in Types : HugeCall("reserve", [h |-> h, len |-> x, typ |-> t])
+        \/ p = 0 /\ n > 0 /\ HugeCall("slicewrite", [h |-> h, off |-> 0, len |-> 0, nblk |-> x, esz |-> n, data |-> <<>>, zero |-> 1])
+        \/ p = 0 /\ n > 0 /\ HugeCall("slicewrite", [h |-> h, off |-> 0, len |-> 0, nblk |-> n, esz |-> x, data |-> <<>>, zero |-> 1])
+
+\* C++ array class
+NextHugeXArr ==
+  \E h \in H, x \in HOffs, p \in {0, MaxArg}, n \in {0, 1, MaxArg} :
+     /\ Prune => h = 1
+     /\ \/ HugeCall("xinsert", [h |-> h, pos |-> x, data |-> Fresh(n), zero |-> 0, hl |-> 0])
+        \/ n = 0 /\ HugeCall("xinsert", [h |-> h, pos |-> p, data |-> <<>>, zero |-> 1, hl |-> x])
+        \/ n = 0 /\ p = 0 /\ HugeCall("xset", [h |-> h, data |-> <<>>, zero |-> 1, hl |-> x])
+        \/ n = 0 /\ p = 0 /\ HugeCall("append", [h |-> h, data |-> <<>>, zero |-> 1, hl |-> x])
+        \/ n = 0 /\ p = 0 /\ BufExcl(h, TRUE) /\ HugeCall("xsetlength", [h |-> h, len |-> x])
+        \/ BufExcl(h, FALSE) /\ HugeCall("bufinsert", [h |-> h, pos |-> x, data |-> Fresh(n), hl |-> 0])
+
+\* C++ typed containers (long arguments)
+NextHugeXTyped ==
+  \E h \in H, y \in HLongs :
+     /\ Prune => h = 1
+     /\ \/ HugeCall("tinsert", [h |-> h, pos |-> y, data |-> <<Fresh(1)[1]>>])
+        \/ HugeCall("tset", [h |-> h, pos |-> y, data |-> <<Fresh(1)[1]>>])
+        \/ HugeCall("tget", [h |-> h, pos |-> y])
+        \/ HugeCall("treserve", [h |-> h, len |-> y])
+        \/ HugeCall("tresize", [h |-> h, len |-> y])
+
 Data(n, z) == IF z = 1 THEN Zeros(n) ELSE Fresh(n)
 
 \* Prune = TRUE (behaviour export): handle 1 is the actor of every call except
@@ -702,9 +764,9 @@ NextXMap ==
      \/ \E k \in 1..3 : A /\ MapGet(h, k)
      \/ \E k \in 0..3 : A /\ MapValues(h, k)
 
-Next == CASE Api = "c" -> NextC
-          [] Api = "xarr" -> NextXArr
-          [] Api \in {"xtyped", "xunique", "xptr"} -> NextXTyped
+Next == CASE Api = "c" -> NextC \/ NextHugeC
+          [] Api = "xarr" -> NextXArr \/ NextHugeXArr
+          [] Api \in {"xtyped", "xunique", "xptr"} -> NextXTyped \/ NextHugeXTyped
           [] Api = "xmap" -> NextXMap
 
 Spec == Init /\ [][Next]_vars
